@@ -7,6 +7,7 @@ import (
 	"io"
 	"runtime"
 	"strings"
+	"time"
 
 	"go.uber.org/thriftrw/protocol/binary"
 	"go.uber.org/thriftrw/protocol/stream"
@@ -169,6 +170,7 @@ func c13Case(c *checker, api string, t byte, b []byte) {
 		wdEnter(fmt.Sprintf("A stream %d %s", t, hx(b)))
 	}
 	defer wdLeave()
+	t0 := time.Now()
 	p := safely(func() {
 		switch api {
 		case "stream":
@@ -224,8 +226,13 @@ func c13Case(c *checker, api string, t byte, b []byte) {
 			})
 		}
 	})
+	elapsed := time.Since(t0)
 	c.rep.Hist("api", api)
 	c.rep.Case(key, true)
+	if elapsed > time.Second {
+		c.oracle("C13 work not linear in the input size", key, fmt.Sprintf("took %.2fs", elapsed.Seconds()),
+			fmt.Sprintf("N=%d bytes; bound 1s", n))
+	}
 	if p != "" {
 		c.oracle("C13 panic", key, "panic "+p, "decoder panicked")
 		return
